@@ -23,7 +23,7 @@ def gen_cases(rnd, tier):
         cases.append(D.gen_chirpseq_case(rnd))
     for i in range(18 * k):
         cases.append(D.gen_toneseq_case(rnd, NS[1:]))
-    for i in range(120 * k):
+    for i in range(100 * k):
         c = D.gen_chirpfn_case(rnd, full and i % 4 == 0)
         if i % 100 == 0:
             c["xcheck"] = rnd.choice(c["bins"])
@@ -48,7 +48,7 @@ def gen_cases(rnd, tier):
     for i in range(40 * k):
         cases.append(D.gen_bb_case(rnd, "roundtrip", [128, 250, 256], nchans=(1, 2),
                                    span=lambda r, N: r.uniform(0.005, 0.09) * N))
-    for i in range(350 * k):
+    for i in range(280 * k):
         c = D.gen_bb_case(rnd, "crop", NS + [1, 2, 5], decades=i % 2 == 0,
                           span=lambda r, N: r.uniform(0, 1.4) * N)
         cases.append(c)
